@@ -132,6 +132,7 @@ add("ann", S("ATHENA<wisdom>"), [one("ATHENA<wisdom>")], "core")
 add("ctor1", S("NEVER<A>"), [one("NEVER<A>"), one("NEVER", "[", "A", "]")], "core")
 add("ctor2", S("NEVER<A,B>"), [one("NEVER<A,B>"), one("NEVER", "[", "A", ",", "B", "]")], "full")
 add("ctor0", S("FOO<>"), [one("FOO<>"), one("FOO", "[", "]")], "full")
+add("catpath", S("build{U29FA}/dist"), [one('"build', CAT, '/dist"'), one("build", CAT, "/dist"), one("build", " ", "~", "/dist"), one("build", "~", "/dist")], "full")
 # ---- operators inside a bracket group that is captured as text (constructor arguments, a bracket group inside an expression)
 add("ctorop", S("CHECK<lint{U2227}test>"), [one('"CHECK<lint', AND, 'test>"'), one("CHECK", "[", "lint", AND, "test", "]"), one("CHECK", "[", "lint", "&", "test", "]")], "full")
 add("ctorops", S("RULES<fast{U2192}safe,a{U2228}b>"), [one('"RULES<fast', ARROW, "safe,a", OR, 'b>"'), one("RULES", "[", "fast", ARROW, "safe", ",", "a", OR, "b", "]"),
